@@ -6,7 +6,9 @@ Line protocol for K_C10 (also used by K_C11 for the connect-back scenarios).
   new <direct|back|incoming|server> <typF:0|1> <slow:0|1>
   at <i> connectOk <ok|block|fail> | connectFail | connectTimeout | cancelAttempt
        | firstFrame <initP|initF|pierceP|pierceF|pierceUnknown|undecodable> | frame <0|1> | partialEof | eof | reset
-       | readTimeout | disconnect | closeDone | send <ok|block|fail> | drainOk | sendTimeout <0|1> | restart
+       | readTimeout | disconnect [<REASON>] | closeDone | send <ok|block|fail> | drainOk | sendTimeout <0|1> | restart
+       | queue <ok|block|fail> | queueTimeout
+  (REASON = UNKNOWN | CONNECT_FAILED | REQUESTED | READ_ERROR | WRITE_ERROR | TIMEOUT | EOF; default REQUESTED)
 
 Every line answers with what the op made observable and the state at the quiescent point after it:
   ev=<state/msg/init/wrote events of connection i, in order> res=<results, sorted> reg=<registered ids> st=<state per connection> open=<socket open per connection>
@@ -38,6 +40,9 @@ def result : Ev → Option String
   | .attRes .cancelled => some "att:cancelled"
   | .sendRes true => some "send:ret"
   | .sendRes false => some "send:err"
+  | .queueRes .ret => some "q:ret"
+  | .queueRes .err => some "q:err"
+  | .queueRes .cancelled => some "q:cancelled"
   | _ => none
 
 def insertS (x : String) : List String → List String
@@ -66,6 +71,11 @@ def parseOrigin : String → Option Origin
   | "direct" => some .direct | "back" => some .back | "incoming" => some .incoming | "server" => some .server
   | _ => none
 
+def parseReason : String → Option Reason
+  | "UNKNOWN" => some .unknown | "CONNECT_FAILED" => some .connectFailed | "REQUESTED" => some .requested
+  | "READ_ERROR" => some .readError | "WRITE_ERROR" => some .writeError | "TIMEOUT" => some .timeout
+  | "EOF" => some .eof | _ => none
+
 def parseCOp : List String → Option COp
   | ["connectOk", m] => (parseMode m).map .connectOk
   | ["connectFail"] => some .connectFail
@@ -77,7 +87,10 @@ def parseCOp : List String → Option COp
   | ["eof"] => some .eof
   | ["reset"] => some .reset
   | ["readTimeout"] => some .readTimeout
-  | ["disconnect"] => some .disconnect
+  | ["disconnect"] => some (.disconnect .requested)
+  | ["disconnect", r] => (parseReason r).map .disconnect
+  | ["queue", m] => (parseMode m).map .queue
+  | ["queueTimeout"] => some .queueTimeout
   | ["closeDone"] => some .closeDone
   | ["send", m] => (parseMode m).map .send
   | ["drainOk"] => some .drainOk
